@@ -91,8 +91,11 @@ def cfg_name(cfg):
 def C13(tier, seed):
     chk = Check('C13', tier, seed)
     pairs = [((0, ''), (3, '')), ((3, ''), (4, '')), ((0, ''), (2, ''))]
-    progs = ['F1', 'R2', 'H2', 'X', 'A'] + (['R3', 'H3', 'HIa', 'T'] if tier == 'thorough' else [])
-    product_units(chk, progs, pairs, 'C13')
+    if tier == 'thorough':
+        product_units(chk, ['F1', 'R2', 'H2', 'X', 'A', 'R3', 'H3', 'HIa', 'T'], pairs, 'C13')
+    else:
+        product_units(chk, ['F1', 'R2', 'H2'], pairs, 'C13')
+        product_units(chk, ['X', 'A'], pairs[:1], 'C13')
     return chk
 
 
